@@ -57,7 +57,14 @@ type Device struct {
 	Restarts    int
 	gen         int
 	subs        []*devSub
-	refused     map[string]codes.Code // definite refusals by request content (see Set)
+	// Shared models the real connection manager: all Conn objects of a target wrap ONE gRPC channel, which reconnects by
+	// itself. A connection loss fails the RPCs in flight and makes the device unreachable; once it is reachable again
+	// every Conn object - also one a reconcile obtained before the loss - reaches the (possibly restarted) device.
+	// Faults then act in the device's handlers (link / reachable) and never close a client connection.
+	Shared    bool
+	link      int
+	reachable bool
+	refused   map[string]codes.Code // definite refusals by request content (see Set)
 	accepted    map[string]bool       // requests accepted before, by content
 }
 
@@ -87,9 +94,33 @@ func (d *Device) RestartEmpty() {
 	d.MaxElect = 0
 	d.Restarts++
 	d.gen++
+	if d.Shared {
+		d.link++
+		d.reachable = false
+		d.mu.Unlock()
+		return
+	}
 	d.mu.Unlock()
 	d.srv.Stop()
 	d.start()
+}
+
+// LinkDown (shared channel): RPCs in flight fail, the device is unreachable until LinkUp.
+func (d *Device) LinkDown() {
+	d.mu.Lock()
+	d.link++
+	d.reachable = false
+	d.mu.Unlock()
+}
+
+// LinkUp (shared channel): the channel is ready again. flap: it had not been reported down (RPCs in flight fail all the same).
+func (d *Device) LinkUp(flap bool) {
+	d.mu.Lock()
+	if flap {
+		d.link++
+	}
+	d.reachable = true
+	d.mu.Unlock()
 }
 
 // Dial opens a client connection to the device. Every RPC on it carries the (later filled) connection id as metadata so
@@ -123,9 +154,14 @@ func (d *Device) Set(ctx context.Context, r *gnmi.SetRequest) (resp *gnmi.SetRes
 		}
 	}
 	d.mu.Lock()
+	if d.Shared && !d.reachable {
+		d.mu.Unlock()
+		return nil, status.Error(codes.Unavailable, "device unreachable")
+	}
 	d.NSets++
 	n := d.NSets
 	gen := d.gen
+	link := d.link
 	d.mu.Unlock()
 	rec := &DevReq{N: n, Election: el}
 	if md, ok := metadata.FromIncomingContext(ctx); ok {
@@ -150,6 +186,12 @@ func (d *Device) Set(ctx context.Context, r *gnmi.SetRequest) (resp *gnmi.SetRes
 		if gen != d.gen {
 			rec.Outcome = "code:Unavailable(restarted)"
 			err = status.Error(codes.Unavailable, "device restarted")
+			d.Log = append(d.Log, rec)
+			return
+		}
+		if d.Shared && (link != d.link || !d.reachable) {
+			rec.Outcome = "code:Unavailable(connection lost)"
+			err = status.Error(codes.Unavailable, "connection lost")
 			d.Log = append(d.Log, rec)
 			return
 		}
